@@ -590,7 +590,7 @@ func runWorkerOnce(o Options, w *workerRun, scns []int, errPath string, timeout 
 	cmd.Stderr = ef
 	cmd.Env = append(os.Environ(), "GOTRACEBACK=all")
 	if w.race {
-		cmd.Env = append(cmd.Env, "GORACE=halt_on_error=0 history_size=3 log_path="+w.raceLog)
+		cmd.Env = append(cmd.Env, "GORACE=halt_on_error=0 exitcode=0 history_size=3 log_path="+w.raceLog)
 	}
 	if err := cmd.Start(); err != nil {
 		return 99, false
